@@ -393,6 +393,13 @@ func (g *Gen) Device(t *Config, nedits int) (*Store, []string) {
 	s.Policies = append(s.Policies, &Policy{Id: "default-layer3-section", Rules: []*Rule{{Id: "default-rule", Action: "DROP", SequenceNumber: 1000,
 		SourceGroups: []string{"ANY"}, DestinationGroups: []string{GroupPath + "other-team-group"}, Services: []string{ServicePath + "HTTP"},
 		Scope: []string{"ANY"}, Direction: "IN_OUT"}}})
+	// Expressions created through the GUI or by other tools carry ids of
+	// their own, not the "id" approve uses.
+	for _, gr := range s.Groups {
+		if len(gr.Expression) > 0 && g.Rng.Intn(3) == 0 {
+			gr.Expression[0].Id = fmt.Sprintf("8d07e4b6-%04x", g.Rng.Intn(65536))
+		}
+	}
 	return s, ops
 }
 
